@@ -388,6 +388,47 @@ def clause7_kind(ctx, P):
                "; ".join(fmt_atom(a, True) for a in typed[:2]))
 
 
+def clause7b_value_copy_checked(ctx, P):
+    """... and a state whose value could not be copied is not added at all: wherever init_element() stores a copy (the result of a
+    duplicating call) into e->value, every path from there to a success return has found THAT result non-NULL - a test of something
+    else (the request's own value) lets an add succeed with e->value == NULL, i.e. as a method"""
+    ie = P.fn("element.c:init_element")
+    bad = None
+    n = 0
+    for v in Q.path_views(ctx, P, ie):
+        if v.ret_const() != 0:
+            continue
+        for _, i in v.insts():
+            if i.op != "store":
+                continue
+            d = P.term(ie, i.a[1])
+            if not (d[0] == "field" and d[2] == "struct.element" and d[3] == "value"):
+                continue
+            val = v.resolve(i.a[0])
+            vt = P.term(ie, val) if not P.is_null(val) else None
+            if vt is None or vt[0] != "call":
+                continue
+            n += 1
+            tested = v.has_atom(lambda a, p: a[0] == "cmp" and a[3] == ("null",) and not Q._poleq(a, p) and
+                                (a[2] == vt or a[2] == ("load", d)))
+            if not tested:
+                bad = (v, i, vt)
+    ctx.ob("C04.3 R-NULL", ie, "value-copy-is-checked", bad is None and n > 0,
+           ("init_element() stores the result of %s() into e->value at %s and returns success on a path that never found that result "
+            "non-NULL: when the copy fails the element is added without a value - a state registered as a method" %
+            (bad[2][1], bad[1].loc)) if bad else "the stored copy is null-tested on every success path", witness=bad[0].witness() if bad else None)
+
+
+def clause9b_success_is_success(ctx, P, cg):
+    """add, change and remove answer with create_success_response_from_request() AFTER the mutation: that constructor builds a
+    success answer or none - it never falls back to an error answer, which would report a failure for a request that took effect"""
+    f = P.fn("response.c:create_success_response_from_request")
+    errs = sorted({P.srcname_of(x) for x in cg.reach(f.name)} & {"create_error_response", "create_error_response_from_request", "create_error_object"})
+    ctx.ob("C04.4 R-WHO", f, "success-constructor-builds-no-error", not errs,
+           "create_success_response_from_request() can build an error answer (%s): it is called after the element table has been changed, "
+           "so a request that took effect is answered with an error" % ", ".join(errs))
+
+
 def clause6_wrappers(ctx, P):
     """the three accessors of the path index agree on the key domain: each consults the table on every path with the key it
     was given (a lookup that answers 'absent' without looking lets a second element take a path that put() accepted)"""
@@ -472,3 +513,5 @@ def run(ctx):
         clause5_success_effect(ctx, cfg.P, cfg.cg)
         clause8_key_copy(ctx, cfg.P)
         clause9_no_embedded_nul(ctx, cfg.P)
+        clause7b_value_copy_checked(ctx, cfg.P)
+        clause9b_success_is_success(ctx, cfg.P, cfg.cg)
